@@ -1061,9 +1061,9 @@ def _same_counter(a, b):
     def opts(t):
         return set(t[1]) if t[0] == "phi" else {t}
     oa, ob = opts(a), opts(b)
-    zero = ("int", 0)
     inc = lambda s_: any(x[0] == "bin" and x[1] == "Add" and x[3] == ("int", 1) for x in s_)
-    return zero in oa and zero in ob and inc(oa) and inc(ob)
+    # (the start value is 0, or 1 when the first element is pulled and stored before the loop)
+    return any(z in oa and z in ob for z in (("int", 0), ("int", 1))) and inc(oa) and inc(ob)
 
 
 def _strip_place(t):
@@ -1155,7 +1155,7 @@ def rule_exact(env, shared):
                    % fmt(res)[:120])]
     ci_adt = res[1].rsplit("::", 1)[0]
     fields = res[2]
-    filled = [i for i, t in enumerate(fields) if t[0] == "phi" and ("int", 0) in t[1]
+    filled = [i for i, t in enumerate(fields) if t[0] == "phi" and (("int", 0) in t[1] or ("int", 1) in t[1])
               and any(x[0] == "bin" and x[1] == "Add" and x[3] == ("int", 1) for x in t[1])]
     consumed = [i for i, t in enumerate(fields) if t == ("int", 0)]
     if len(filled) != 1 or len(consumed) != 1:
@@ -1163,7 +1163,32 @@ def rule_exact(env, shared):
                    "the chunk iterator of the ticket puller is not built as {buffer, filled = loop counter, consumed = 0}: %s"
                    % fmt(res)[:160])]
     fi, ci = filled[0], consumed[0]
+    start_one = ("int", 0) not in fields[fi][1]
     out.append(Ob("EXACT", "EXACT|chunk-struct", "ok", loc, "chunk = {buffer, filled: loop counter, consumed: 0}", True))
+    if start_one:
+        # the first round is peeled off the loop: the counter starts at 1, so slot[0] must have received a freshly pulled
+        # element on every path that reaches a returned chunk
+        k0 = "EXACT|first-slot-stored"
+        okf = False
+        for (bi, s_, agg) in _some_blocks(env, pull, ctx, ci_adt.split("::")[-1] + "::" + res[1].rsplit("::", 1)[1]):
+            okf = True
+            dom = pull.dominators().get(bi, set())
+            found = False
+            for d in dom:
+                c = pull.callee(d)
+                if c is not None and not c.indirect and c.trait == "std::ops::IndexMut" and not pull.blocks[d]["cleanup"]:
+                    t_ = pull.term(d)
+                    if unref(ev.operand(ctx, t_["args"][1])) == ("int", 0) and \
+                            _strip_place(unref(ev.operand(ctx, t_["args"][0]))) in {_strip_place(unref(f)) for f in fields} and \
+                            any(f[0] == "is_some" and f[2] is True and "Iterator::next" in fmt(f[1]) for f in block_facts(ev, ctx, d)):
+                        found = True
+            if not found:
+                okf = False
+                break
+        out.append(Ob("EXACT", k0, "ok" if okf else "viol", loc,
+                      "the counter starts at 1 after slot[0] received the first pulled element" if okf else
+                      "the filled counter starts at 1 but no store of a freshly pulled element into slot[0] dominates the chunk: "
+                      "a stale element of an earlier chunk is delivered"))
     # (E1) the counter increment is dominated by a store into slot[counter] of the payload of next()
     cnt_local = None
     # the fill loop may live in `pull` itself or in a private helper it calls (searched one and two levels down)
@@ -1215,6 +1240,8 @@ def rule_exact(env, shared):
         for f in block_facts(ev, ctx, bi):
             if f[0] == "ne" and len(f) == 3 and f[1] == fields[fi] and f[2] == ("int", 0):
                 good = True
+    if start_one:
+        good = True  # (counts from 1)
     if not good:
         # judged on the return value: every way of returning Some lies under filled != 0 (`(filled > 0).then(..)`)
         from guards import local_cases
